@@ -90,9 +90,61 @@ func c07Run(r *Run) {
 		}
 		return false
 	}
-	accessNode := func(fd *ast.FuncDecl) bool {
+	accessNodeType := func(fd *ast.FuncDecl) bool {
 		tn := recvTypeName(fd)
 		return strings.HasPrefix(tn, "Call") || strings.HasPrefix(tn, "Nullsafe") || tn == "IndexExpression"
+	}
+	// package-level helpers that an access node calls (two levels deep) and that look members up
+	// themselves (resolveStaticCallable(ctx, class, name)) are part of the access path
+	accessHelper := map[*ast.FuncDecl]bool{}
+	{
+		declByObj := map[types.Object]*ast.FuncDecl{}
+		for _, fd := range funcDecls(npkg) {
+			declByObj[info.Defs[fd.Name]] = fd
+		}
+		looksUp := func(fd *ast.FuncDecl) bool {
+			found := false
+			ast.Inspect(fd.Body, func(n ast.Node) bool {
+				if c, ok := n.(*ast.CallExpr); ok {
+					if se, ok := ast.Unparen(c.Fun).(*ast.SelectorExpr); ok {
+						nm := se.Sel.Name
+						if strings.HasPrefix(nm, "Get") && (strings.Contains(nm, "Property") || strings.Contains(nm, "Method")) && len(c.Args) > 0 {
+							if cal, ok := calleeOf(info, c).(*types.Func); ok && cal.Type().(*types.Signature).Results().Len() > 0 && isMemberDecl(cal.Type().(*types.Signature).Results().At(0).Type()) {
+								found = true
+							}
+						}
+					}
+				}
+				return !found
+			})
+			return found
+		}
+		var frontier []*ast.FuncDecl
+		for _, fd := range funcDecls(npkg) {
+			if accessNodeType(fd) && fd.Body != nil {
+				frontier = append(frontier, fd)
+			}
+		}
+		for depth := 0; depth < 2; depth++ {
+			var next []*ast.FuncDecl
+			for _, fd := range frontier {
+				ast.Inspect(fd.Body, func(n ast.Node) bool {
+					if c, ok := n.(*ast.CallExpr); ok {
+						if h := declByObj[calleeOf(info, c)]; h != nil && h.Recv == nil && h.Body != nil && !accessHelper[h] {
+							if looksUp(h) {
+								accessHelper[h] = true
+							}
+							next = append(next, h)
+						}
+					}
+					return true
+				})
+			}
+			frontier = next
+		}
+	}
+	accessNode := func(fd *ast.FuncDecl) bool {
+		return accessNodeType(fd) || accessHelper[fd]
 	}
 	// self:: / static:: / parent:: can only be written inside class code: the caller is in the
 	// hierarchy by construction, so the outside rule is not armed there.
@@ -707,8 +759,10 @@ func c07Run(r *Run) {
 			if !isLookup || len(c.Args) == 0 {
 				return s
 			}
-			// constant magic name
-			if bl, ok := ast.Unparen(c.Args[0]).(*ast.BasicLit); ok && strings.HasPrefix(bl.Value, "\"__") {
+			// a constant name: a magic method (__get, __call…) or a method of an engine-level interface
+			// (offsetGet, current, count…) the interpreter calls on the script's behalf — not a member the
+			// script named
+			if _, ok := ast.Unparen(c.Args[0]).(*ast.BasicLit); ok {
 				return s
 			}
 			if isMemberDecl(res0) {
